@@ -49,7 +49,10 @@ def build_cases(run, n, tick_p, depth_choices=(2, 3, 3, 4, 5)):
 
 def add_case(run, text, data, cases, meta):
     try:
-        stmt = ec.engine()(text)
+        # one of the meaning-preserving engine configurations (limits that are never reached, options spelled out)
+        variant = run.rng.randrange(len(ec.NEUTRAL_OPTIONS)) if run.rng.random() < 0.5 else 0
+        stmt = ec.engine_variant(variant)(text)
+        run.count("engine_options:%d" % variant)
     except Exception as e:
         run.count("generator_parse_error")
         return
@@ -236,7 +239,7 @@ def attribution_is_mapped_access(run):
             for k in ("name", "nick", "tags"):
                 pairs = [("$.people.%s" % k, "$.people.select($.%s)" % k),
                          ("let(p => $.people) -> $p.where($.name != a).%s" % k, "let(p => $.people) -> $p.where($.name != a).select($.%s)" % k)]
-                if k == "tags":
+                if k == "tags" and all(isinstance(q, dict) and isinstance(q.get("tags", []), list) for q in people):
                     pairs.append(("$.people.tags.t", "$.people.select($.tags.select($.t))"))
                 for mapped, elementwise in pairs:
                     a, b = _outcome(eng, mapped, doc, mk()), _outcome(eng, elementwise, doc, mk())
